@@ -501,7 +501,7 @@ def gen_samp_hist(rng, tier):
     ops = []
     for _ in range(rng.randint(2, 4)):
         api = rng.choice(["forward", "rejection", "lw", "lw", "gibbs", "gibbs_gen"])
-        op = {"api": api, "size": rng.choice([2, 5, 12]), "seed": rng.choice([0, 3, rng.randrange(10 ** 6)])}
+        op = {"api": api, "size": rng.choice([2, 5, 60, 60]), "seed": rng.choice([0, 3, rng.randrange(10 ** 6)])}
         if api in ("rejection", "lw"):
             v = rng.randrange(n)
             op["ev"] = [[v, rng.randrange(case["card"][v])]]
